@@ -19,6 +19,12 @@ R11 the quoted-string scan behind parse_header's slow path decides "inside a
 R12 every test that gates the construction of the form on the boundary admits
     all RFC 2046 boundaries of 1..70 characters (regex validators by the
     min / max width of their pattern).
+R13 the constructor defaults of MultipartParseOptions (part count, buffered
+    part size, header block size) equal the values its attribute docstrings
+    document (doc/code agreement on folded constants).
+R14 get_media() drains the part stream exactly when the resolved handler's
+    exhaust_stream flag is set (both flavours; R1 compares the two, R14 pins
+    the common meaning).
 """
 
 from __future__ import annotations
@@ -143,17 +149,38 @@ def _bind(p, reader: str, call: ast.Call) -> Dict[str, ast.AST]:
 # R1 sibling equality
 # ---------------------------------------------------------------------------
 
-def _interesting_test(e, txt: str) -> bool:
-    # tests against protocol literals (b'--', header names, 'text/plain');
-    # plain flags are implementation detail and the numeric limits are checked
+def _collaborator_flag(e, nm: Norm, depth=0) -> bool:
+    """A read of a PUBLIC attribute of an object other than self that is not a method call (`handler.exhaust_stream`, also
+    through a local bound once to it): part of that object's documented contract, so the branch it selects is protocol, not
+    implementation detail."""
+    called = {id(x.func) for x in ast.walk(e) if isinstance(x, ast.Call)}
+    for x in ast.walk(e):
+        if isinstance(x, ast.Attribute) and isinstance(x.ctx, ast.Load) and id(x) not in called and not x.attr.startswith('_'):
+            ch = attr_chain(x)
+            if ch is not None and len(ch) == 2 and ch[0] not in ('self', 'cls') and nm.defs.is_local(ch[0]):
+                return True
+        elif isinstance(x, ast.Name) and depth < 3:
+            d = nm.defs.single(x.id)
+            if d is not None and _collaborator_flag(d, nm, depth + 1):
+                return True
+    return False
+
+
+def _interesting_test(nm: Norm):
+    # tests against protocol literals (b'--', header names, 'text/plain') and on public flags of collaborating objects
+    # (handler.exhaust_stream); plain local / self flags are implementation detail and the numeric limits are checked
     # against their normal forms, per sibling, by R2
-    return "'" in txt and 'self._parse_options.max_' not in txt
+    def keep(e, txt: str) -> bool:
+        if 'self._parse_options.max_' in txt:
+            return False
+        return "'" in txt or _collaborator_flag(e, nm)
+    return keep
 
 
 def _compare(run, what, fa: Func, fb: Func, na: Norm, nb: Norm):
     p = run.project
-    ea = Events(p, fa, na, _interesting_test)
-    eb = Events(p, fb, nb, _interesting_test)
+    ea = Events(p, fa, na, _interesting_test(na))
+    eb = Events(p, fb, nb, _interesting_test(nb))
     run.use_cfg(ea.cfg)
     run.use_cfg(eb.cfg)
     da, db = ea.dfa(), eb.dfa()
@@ -182,13 +209,44 @@ def r1_siblings(run):
     run.check(sub is True, 'the ASGI BodyPart derives from the WSGI BodyPart (shared header accessors)', p.cls(ASGI_PART).qual,
               'class BodyPart(%s)' % ', '.join(p.cls(ASGI_PART).bases), where=p.cls(ASGI_PART).loc())
     _compare(run, 'form iterator', fs, fa, _norm(p, fs, rs), _norm(p, fa, ra))
+    # every public member of the part: methods, properties and `X = property(getter)` aliases of the WSGI flavour
+    from .c13_helpers import property_alias
+    members: Dict[str, str] = {}
+    for cq in p.mro(SYNC_PART):
+        c = p.classes.get(cq)
+        if c is None:
+            continue
+        for name in c.methods:
+            if not name.startswith('_'):
+                members.setdefault(name, 'method')
+        for name, val in c.attrs.items():
+            if not name.startswith('_') and isinstance(val, ast.Call) and isinstance(val.func, ast.Name) and val.func.id == 'property':
+                members.setdefault(name, 'alias')
     for name in ('get_data', 'get_text', 'get_media'):
+        if members.get(name) != 'method':
+            raise AnchorError('BodyPart.%s not found' % name)
+    for name in sorted(members):
+        if members[name] == 'alias':
+            gs, ga = property_alias(p, SYNC_PART, name), property_alias(p, ASGI_PART, name)
+            if gs is None:
+                raise UnknownIdiom('%s.%s: property(...) is not given a method of the class' % (SYNC_PART, name))
+            eff = p.lookup_method(ASGI_PART, gs.name)
+            run.check(ga is not None and ga is eff and p.lookup_method(SYNC_PART, gs.name) is gs,
+                      'BodyPart.%s is, in both flavours, a property over the flavour\'s own effective %s() (an ASGI getter that is overridden '
+                      'is re-aliased)' % (name, gs.name), p.cls(ASGI_PART).qual, 'BodyPart.%s = property(%s)' % (name, gs.name),
+                      where=p.cls(ASGI_PART).loc(),
+                      runtime_witness='ASGI: part.%s runs the WSGI getter on the asynchronous part stream (a coroutine where bytes are expected)' % name)
+            continue
         gs = p.lookup_method(SYNC_PART, name)
         ga = p.lookup_method(ASGI_PART, name)
         if gs is None or ga is None:
             raise AnchorError('BodyPart.%s not found' % name)
         if gs is ga:
             run.ok('BodyPart.%s is inherited unchanged by the ASGI flavour' % name, gs.loc(), name)
+            continue
+        if gs.is_property() != ga.is_property():
+            run.fail('BodyPart.%s is a property in one flavour and a method in the other' % name, ga, 'BodyPart.' + name, where=ga.loc(),
+                     runtime_witness='part.%s means different things on WSGI and ASGI' % name)
             continue
         _compare(run, 'BodyPart.' + name, gs, ga, _norm(p, gs, cls=p.cls(SYNC_PART)), _norm(p, ga, cls=p.cls(ASGI_PART)))
 
@@ -701,6 +759,122 @@ def r3_only_parse_error(run):
             run.ok('%s %s: escape set %s is within {%s}' % (tag, f.qual, sorted(x.split('.')[-1] for x in summ),
                                                             ', '.join(sorted(a.split('.')[-1] for a in allowed))), f.loc(), f.qual)
     run.extra['c13_r3_exemptions'] = sorted(set(exempt.values()))
+    _r3_mapping_handlers(run, exempt)
+
+
+# conversion failures of client-controlled data: UnicodeDecodeError / UnicodeError (ValueError), unknown codec (LookupError), ...
+# (a missing key / index - KeyError, IndexError, also LookupErrors - is an EAFP idiom, not a failed conversion)
+def _is_conversion_failure(p, exc: str) -> bool:
+    return p.is_subclass(exc, 'builtins.ValueError') is True or exc == 'builtins.LookupError'
+
+
+def _part_members(p) -> List[Tuple[Func, object]]:
+    """Effective member functions (public or not) of both BodyPart flavours, each once, with the class it is seen from."""
+    out, seen = [], set()
+    for cq in (SYNC_PART, ASGI_PART):
+        for k in p.mro(cq):
+            c = p.classes.get(k)
+            if c is None:
+                continue
+            for name, m in c.methods.items():
+                if p.lookup_method(cq, name) is m and m.qual not in seen:
+                    seen.add(m.qual)
+                    out.append((m, p.cls(cq)))
+    return out
+
+
+def _always_raises(p, f: Func, cfg, start: int, cls: str, depth=0) -> bool:
+    """Every normal continuation from `start` ends in `raise <subclass of cls>` (directly, through a local bound once to the
+    exception object, or through a statement-level call of a project function that itself never returns and raises only
+    `cls`).  False when some continuation leaves normally, re-raises, or raises another class; UnknownIdiom when the class of
+    a raise cannot be read."""
+    seen, todo, n_raise = set(), [start], 0
+    defs = None
+    while todo:
+        i = todo.pop()
+        if i in seen:
+            continue
+        seen.add(i)
+        if i == cfg.exit:
+            return False
+        n = cfg.node(i)
+        if n.kind == 'stmt' and isinstance(n.ast, ast.Raise):
+            if n.ast.exc is None:
+                return False
+            q = raised_class(p, f, n.ast)
+            if (q is None or (q not in p.classes and not q.startswith('builtins.'))) and isinstance(n.ast.exc, ast.Name):
+                if defs is None:
+                    from .c13_helpers import Defs
+                    defs = Defs(f)
+                d = defs.single(n.ast.exc.id)
+                if isinstance(d, ast.Call):
+                    q = resolve_alias(p, f.module, d.func, f)
+            if q is None or (q not in p.classes and not q.startswith('builtins.')):
+                raise UnknownIdiom('%s: class of `%s` not resolved' % (f.qual, short(n.ast, 80)))
+            sub = p.is_subclass(q, cls)
+            if sub is None:
+                raise UnknownIdiom('%s: `%s`: relation of %s to %s unknown' % (f.qual, short(n.ast, 80), q, cls))
+            if sub is not True:
+                return False
+            n_raise += 1
+            continue
+        if n.kind == 'stmt' and isinstance(n.ast, ast.Expr) and isinstance(strip_await(n.ast.value), ast.Call) and depth < 2:
+            t = p.callee(f, strip_await(n.ast.value))
+            if isinstance(t, Func) and not any(isinstance(x, (ast.Yield, ast.YieldFrom)) for x in walk_no_nested(t.node)):
+                sub_cfg = cfg_of(t, p)
+                if _always_raises(p, t, sub_cfg, sub_cfg.entry, cls, depth + 1):
+                    n_raise += 1
+                    continue
+        todo += [y for (y, l) in cfg.succ[i] if l != 'exc']
+    return n_raise > 0
+
+
+def _r3_mapping_handlers(run, exempt):
+    """A mapping handler maps.  Every `except` arm of a BodyPart member that catches a conversion failure of client data (a
+    ValueError / LookupError its `try` body can raise according to the escape analysis: strict `bytes.decode`, a codec named by
+    the part, secure_filename) ends, on every normal path, in `raise MultipartParseError`: the failure is neither swallowed
+    (`pass`, a fallback value, `return None`) nor turned into another class.
+    W: Content-Type: text/pl\xe4in in a part -> part.content_type is None with a 200, get_text() dies with TypeError (500);
+    Content-Disposition with an invalid UTF-8 byte -> part.name raises TypeError instead of the 400."""
+    p = run.project
+    n_obl = 0
+    for m, selfcls in _part_members(p):
+        tries = [t for t in walk_no_nested(m.node) if isinstance(t, ast.Try) and t.handlers]
+        if not tries:
+            continue
+        cfg = cfg_of(m, p)
+        run.use_cfg(cfg)
+        for t in tries:
+            E = MultipartEscape(p, exempt_raise_ids=exempt)
+            body_out: Dict[str, list] = {}
+            E._block(t.body, m, selfcls, [], body_out, None)
+            remaining = {exc: chain for exc, chain in body_out.items() if _is_conversion_failure(p, exc)}
+            for h in t.handlers:
+                if h.type is None:
+                    classes = None
+                else:
+                    classes = [resolve_alias(p, m.module, x, m) for x in (h.type.elts if isinstance(h.type, ast.Tuple) else [h.type])]
+                    if any(c is None for c in classes):
+                        raise UnknownIdiom('%s: exception class of `except %s` not resolved' % (m.qual, short(h.type)))
+                caught = {exc: chain for exc, chain in remaining.items()
+                          if classes is None or any(p.is_subclass(exc, c) is True for c in classes)}
+                for exc in caught:
+                    del remaining[exc]
+                if not caught:
+                    continue
+                hn = single([n.id for n in cfg.live_nodes() if n.kind == 'handler' and n.ast is h], 'handler node', m.qual)
+                n_obl += 1
+                run.check(_always_raises(p, m, cfg, hn, PARSE_ERROR),
+                          'a failed conversion of client-controlled part data (%s) caught in %s is re-raised as MultipartParseError on every '
+                          'path: the handler neither swallows it (the accessor would go on without the value) nor raises another class' % (
+                              ', '.join(sorted(x.split('.')[-1] for x in caught)), m.qual),
+                          m, 'except %s' % (short(h.type) if h.type is not None else ''), where=m.loc(h),
+                          witness=['%s  %s' % (w, tx) for exc in sorted(caught) for (w, tx) in caught[exc][:3]],
+                          runtime_witness='a part header / body on which this conversion fails (a byte >= 0x80 in Content-Type or '
+                                          'Content-Disposition, an unknown charset): the accessor returns None / a later statement raises '
+                                          'TypeError (500) instead of MultipartParseError (400)')
+    if n_obl == 0:
+        raise AnchorError('no `except` arm of a BodyPart member catches a conversion failure of client data (F7 mapping vanished)')
 
 
 def _owner_of(p, where: str) -> Optional[str]:
@@ -1776,12 +1950,203 @@ def r12_boundary_acceptance(run):
         raise AnchorError('%s: no test on the boundary guards the construction of the form' % f.qual)
 
 
+# ---------------------------------------------------------------------------
+# R13 the default limits are the documented ones (auto-mutation seeds sa-am01556.. / sa-am01586..)
+# ---------------------------------------------------------------------------
+# "Configured limits are enforced exactly at their thresholds" includes the DEFAULT configuration: an application that
+# never touches parse_options is promised the limits the attribute docstrings of MultipartParseOptions state
+# ("(default ``64``)", "(default ``1 MiB``)", "(default ``8192``)").  Doc/code agreement on constants, exact: the number is
+# parsed out of the docstring that follows the attribute's annotation in the class body and compared with the folded
+# constant the constructor stores.  Where a docstring states no default, the tabled value (with its source) is used.
+
+PARSE_OPTIONS = SYNC_MOD + '.MultipartParseOptions'
+_UNITS = {'': 1, 'b': 1, 'byte': 1, 'bytes': 1, 'kib': 2 ** 10, 'mib': 2 ** 20, 'gib': 2 ** 30}
+# option -> (documented default, source) - only consulted when the attribute docstring does not state a default
+DOCUMENTED_DEFAULTS = {
+    OPT_COUNT: (64, 'docs/api/multipart.rst (autoclass MultipartParseOptions), attribute docstring at the time the rule was written: "default ``64``"'),
+    OPT_BUFFER: (2 ** 20, 'same source: "default ``1 MiB``"'),
+    OPT_HEADERS: (8192, 'same source: "default ``8192``"'),
+}
+
+
+def _documented_default(doc: str, what: str):
+    """the value stated as `default ``<n>[ <unit>]``` in an attribute docstring; None when no default is stated"""
+    import re
+    found = re.findall(r'(?i)\bdefaults?\b(?:\s+(?:is|to|value|of))*\s*:?\s*``([^`]+)``', doc)
+    if not found:
+        return None
+    vals = set()
+    for txt in found:
+        m = re.fullmatch(r'\s*(\d[\d_,]*)\s*([A-Za-z]*)\s*', txt)
+        if m is None or m.group(2).lower() not in _UNITS:
+            raise UnknownIdiom('%s: documented default `%s` is not <integer>[ B|KiB|MiB|GiB]' % (what, txt))
+        vals.add(int(m.group(1).replace('_', '').replace(',', '')) * _UNITS[m.group(2).lower()])
+    if len(vals) != 1:
+        raise UnknownIdiom('%s: the docstring states several defaults %s' % (what, sorted(vals)))
+    return vals.pop()
+
+
+def _fold_int(p, f: Func, e, depth=0):
+    """integer constant expressions incl. shifts (p.fold covers + - * ** // and named constants)"""
+    v = p.fold(f.module, e, f.cls, f)
+    if v is UNKNOWN and isinstance(e, ast.BinOp) and isinstance(e.op, (ast.LShift, ast.RShift, ast.Add, ast.Sub, ast.Mult)) and depth < 6:
+        l, r = _fold_int(p, f, e.left, depth + 1), _fold_int(p, f, e.right, depth + 1)
+        if isinstance(l, int) and isinstance(r, int):
+            if isinstance(e.op, ast.LShift):
+                return l << r if 0 <= r < 64 else UNKNOWN
+            if isinstance(e.op, ast.RShift):
+                return l >> r if 0 <= r < 64 else UNKNOWN
+            return l + r if isinstance(e.op, ast.Add) else (l - r if isinstance(e.op, ast.Sub) else l * r)
+    return v
+
+
+def r13_documented_defaults(run):
+    """W: an application with untouched parse_options: a form of exactly 64 parts / a 1 MiB part read with get_data() / an
+    8192-byte header block is rejected (or one of 65 parts / 1 MiB + 1 / 8193 bytes accepted) although the documentation
+    promises the limit there; setting the documented value explicitly changes the behaviour."""
+    p = run.project
+    c = p.cls(PARSE_OPTIONS)
+    init = p.lookup_method(PARSE_OPTIONS, '__init__')
+    if init is not None:
+        run.use(init)
+    # attribute docstrings: a string expression statement directly after the attribute's annotation / assignment
+    docs: Dict[str, str] = {}
+    body = list(c.node.body)
+    for i, st in enumerate(body[:-1]):
+        tgt = st.target if isinstance(st, ast.AnnAssign) else (st.targets[0] if isinstance(st, ast.Assign) and len(st.targets) == 1 else None)
+        nxt = body[i + 1]
+        if isinstance(tgt, ast.Name) and isinstance(nxt, ast.Expr) and isinstance(nxt.value, ast.Constant) and isinstance(nxt.value.value, str):
+            docs[tgt.id] = nxt.value.value
+    for opt in (OPT_BUFFER, OPT_COUNT, OPT_HEADERS):
+        what = '%s.%s' % (PARSE_OPTIONS, opt)
+        # the constructor's store (or a class-level default)
+        stores = []
+        if init is not None and init.cls is c:
+            stores = [n for n in walk_no_nested(init.node) if isinstance(n, (ast.Assign, ast.AnnAssign)) and n.value is not None and any(
+                attr_chain(t) == ('self', opt) for t in (n.targets if isinstance(n, ast.Assign) else [n.target]))]
+        owner = init
+        if stores:
+            if len(stores) != 1:
+                raise UnknownIdiom('%s is stored %d times by the constructor' % (what, len(stores)))
+            # unconditional: a direct statement of the constructor body
+            if stores[0] not in init.node.body:
+                raise UnknownIdiom('%s: the default is stored conditionally' % what)
+            value = _fold_int(p, init, stores[0].value)
+            cons = stores[0]
+        elif opt in c.attrs:
+            value = p.fold(c.module, c.attrs[opt], c, None)
+            cons, owner = c.attr_nodes.get(opt, c.attrs[opt]), None
+        else:
+            raise AnchorError('%s: no default (neither stored by __init__ nor a class attribute)' % what)
+        if isinstance(value, bool) or not isinstance(value, int):
+            raise UnknownIdiom('%s: the default `%s` does not fold to an integer constant' % (what, short(cons)))
+        documented = _documented_default(docs[opt], what) if opt in docs else None
+        source = 'attribute docstring of %s' % what
+        if documented is None:
+            documented, source = DOCUMENTED_DEFAULTS[opt]
+        run.check(value == documented, 'the default of %s is the documented one (%d, %s): the limits promised to an application that leaves '
+                  'parse_options alone are the ones enforced' % (opt, documented, source), owner if owner is not None else what, cons,
+                  where=(owner.loc(cons) if owner is not None else c.loc(cons)), witness=['constructor default folds to %d; documented %d' % (value, documented)],
+                  runtime_witness='default options, a form sized exactly at the documented %s (%d) or one above it: accepted / rejected on the '
+                                  'wrong side; `options.%s = %d` (the documented value) changes the behaviour' % (opt, documented, opt, documented))
+        run.sample({'rule': 'R13', 'option': opt, 'default': value, 'documented': documented, 'source': source})
+
+
+# ---------------------------------------------------------------------------
+# R14 get_media() drains the part stream exactly when the handler asks for it
+# ---------------------------------------------------------------------------
+
+def _r14(run, tag, f: Func, cls):
+    p = run.project
+    cfg = cfg_of(f, p)
+    run.use_cfg(cfg)
+    nm = _norm(p, f, cls=cls)
+    deser, drains = [], []
+    for n in cfg.live_nodes():
+        if n.kind in ('entry', 'exit', 'xexit', 'join', 'handler'):
+            continue
+        for c in n.calls():
+            if isinstance(c.func, ast.Attribute) and ATTR_MAP.get(c.func.attr, c.func.attr) == 'deserialize':
+                deser.append((n, c))
+            elif isinstance(c.func, ast.Attribute) and c.func.attr == 'exhaust' and nm.text(c.func.value) == 'self.stream':
+                drains.append((n, c))
+    if not deser:
+        raise AnchorError('%s: no <handler>.deserialize[_async](...) call' % f.qual)
+    hnames = {c.func.value.id if isinstance(c.func.value, ast.Name) else None for (_n, c) in deser}
+    if len(hnames) != 1 or None in hnames:
+        raise UnknownIdiom('%s: the deserialising handler is not one local (%s)' % (f.qual, ', '.join(short(c.func.value) for (_n, c) in deser)))
+    h = hnames.pop()
+    streams = {nm.text(c.args[0]) if c.args else None for (_n, c) in deser}
+    if streams != {'self.stream'}:
+        raise UnknownIdiom('%s: deserialize is not given self.stream' % f.qual)
+
+    def flag(e, depth=0):
+        if isinstance(e, ast.Name) and depth < 3 and nm.defs.single(e.id) is not None:
+            return flag(nm.defs.single(e.id), depth + 1)         # `drain = handler.exhaust_stream` ... `if drain:`
+        return isinstance(e, ast.Attribute) and e.attr == 'exhaust_stream' and isinstance(e.value, ast.Name) and e.value.id == h
+
+    on_edges, off_edges = [], []
+    for t in cfg.live_nodes():
+        if t.kind != 'test' or not any(flag(x) for x in t.walk()):
+            continue
+        for (y, l) in cfg.succ[t.id]:
+            if l in ('T', 'F'):
+                r = implied(t.ast, l == 'T', flag)
+                if r is True:
+                    on_edges.append((t.id, y, l))
+                elif r is False:
+                    off_edges.append((t.id, y, l))
+    reads_flag = any(isinstance(x, ast.Attribute) and x.attr == 'exhaust_stream' for x in walk_no_nested(f.node))
+    if not reads_flag:
+        # the drain may have been moved into a helper of the class: a different shape, not read here
+        for n in cfg.live_nodes():
+            for c in (n.calls() if n.kind in ('stmt', 'test', 'iter', 'with') else []):
+                t = p.callee(f, c) if isinstance(c.func, ast.Attribute) and attr_chain(c.func.value) == ('self',) else None
+                if t is None and isinstance(c.func, ast.Attribute) and attr_chain(c.func.value) == ('self',) and cls is not None:
+                    t = p.lookup_method(cls.qual, c.func.attr)
+                if isinstance(t, Func) and any(isinstance(x, ast.Attribute) and x.attr in ('exhaust_stream', 'exhaust') for x in ast.walk(t.node)):
+                    raise UnknownIdiom('%s: the drain of the part stream is delegated to %s' % (f.qual, t.qual))
+    if reads_flag and not on_edges and not off_edges:
+        raise UnknownIdiom('%s: exhaust_stream is read, but no test decides %s.exhaust_stream on an edge' % (f.qual, h))
+    rw = ('ASGI/WSGI, parse_options.media_handlers["multipart/mixed"] = MultipartFormHandler() (a lazily read media object, '
+          'exhaust_stream False): part.get_media() hands out a nested form whose stream was already drained -> '
+          '"unexpected form structure" (400) instead of the nested parts')
+    for (n, c) in drains:
+        ok = any(flow.dominated_by_edge(cfg, n.id, e) for e in on_edges)
+        run.check(ok, '%s BodyPart.get_media(): the part stream is drained only where the handler\'s exhaust_stream flag is known to be set '
+                  '(a handler that hands out a lazily read media object keeps its stream)' % tag, f, c, where='%s:%s' % (f.file, n.lineno),
+                  runtime_witness=rw)
+    # ... and it IS drained when the flag is set: from the deserialize call, every way out (normal or by the handler's own
+    # exception) that does not cross an edge on which the flag is known to be clear passes a drain
+    def only_deser_exc(a, b, l):
+        return l != 'exc' or any(a == n.id for (n, _c) in deser)
+
+    path = flow.find_path(cfg, [n.id for (n, _c) in deser], [cfg.exit, cfg.xexit], avoid_nodes=[n.id for (n, _c) in drains],
+                          avoid_edges=off_edges, edge_filter=only_deser_exc)
+    run.check(path is None and bool(on_edges or off_edges), '%s BodyPart.get_media(): a handler whose exhaust_stream flag is set has the rest of the '
+              'part stream drained on every way out of deserialisation (also when it raises)' % tag, f, deser[0][1],
+              where='%s:%s' % (f.file, deser[0][0].lineno), witness=flow.describe_path(cfg, path) if path else None,
+              runtime_witness='a handler with exhaust_stream=True that reads only a prefix: the unread rest of the part is left to whoever reads next')
+
+
+def r14_media_drain(run):
+    """The media handler contract (BaseHandler.exhaust_stream: "whether to exhaust the input stream upon finishing
+    deserialization") as applied to a body part, in both flavours: drained iff the resolved handler's flag is set."""
+    p = run.project
+    gs, ga = p.lookup_method(SYNC_PART, 'get_media'), p.lookup_method(ASGI_PART, 'get_media')
+    if gs is None or ga is None:
+        raise AnchorError('BodyPart.get_media not found')
+    _r14(run, 'WSGI', gs, p.cls(SYNC_PART))
+    if ga is not gs:
+        _r14(run, 'ASGI', ga, p.cls(ASGI_PART))
+
+
 def check(run):
     run.assume('reader semantics (C14) are taken as given: read_until(d, n, consume_delimiter=True) returns at most n bytes and '
                'raises DelimiterError unless d follows; pipe_until(d, consume_delimiter=True) skips to and over d')
-    run.rule('R1', r1_siblings, 'sync and async parsers are event-language-equal', floor=5)
+    run.rule('R1', r1_siblings, 'sync and async parsers are event-language-equal (iterators, every public BodyPart member, property aliases)', floor=12)
     run.rule('R2', r2_thresholds, 'limits are enforced exactly at their thresholds (normal forms)', floor=22)
-    run.rule('R3', r3_only_parse_error, 'only MultipartParseError (a 400) escapes iteration and the part accessors', floor=23)
+    run.rule('R3', r3_only_parse_error, 'only MultipartParseError (a 400) escapes iteration and the part accessors; conversion failures are mapped, not swallowed', floor=29)
     run.rule('R4', r4_delimiter, 'delimiter evolution and the value given to delimit()', floor=2)
     # the header-block limit is enforced through read_until(CRLF+CRLF, max_headers_size): it holds independently of the
     # transport's chunking only if that size-capped read never hands out the first bytes of a delimiter (C14 R7)
@@ -1798,3 +2163,7 @@ def check(run):
              'substring-count correction terms', floor=1)
     run.rule('R12', r12_boundary_acceptance, 'every test that can refuse the boundary (length tests, regular-expression validators by min / max width) '
              'admits all RFC 2046 boundaries of 1..70 characters', floor=1)
+    run.rule('R13', r13_documented_defaults, 'the default part-count / buffer-size / header-size limits are the ones the attribute docstrings of '
+             'MultipartParseOptions document', floor=3)
+    run.rule('R14', r14_media_drain, 'BodyPart.get_media() drains the part stream exactly when the resolved handler sets exhaust_stream (both flavours)',
+             floor=4)
